@@ -11,13 +11,17 @@ D == Rd(B, "flag")
 N == Rd(A, "ival")
 Leaf == {N, IntL(1)}
 Cond == {C, And(C, D), Or(C, D), Tern(C, D, Bool(TRUE)), Un("!", C)}
-E1 == Leaf \cup {Tern(c, x, y) : c \in {C, And(C, D)}, x \in Leaf, y \in Leaf}
+\* logical operators whose RIGHT operand itself spans several blocks (and left-nested controls)
+NestCond == {And(C, Or(D, C)), Or(C, And(D, C)), And(C, Tern(D, C, Bool(TRUE))), Or(C, Tern(D, Bool(FALSE), C)), And(And(C, D), C), Or(Or(C, D), C),
+             And(C, And(D, Or(C, D))), Or(Tern(C, D, C), And(D, C)), Un("!", And(C, Or(D, C)))}
+E1 == Leaf \cup {Tern(c, N, IntL(2)) : c \in NestCond} \cup {Tern(c, x, y) : c \in {C, And(C, D)}, x \in Leaf, y \in Leaf}
         \cup {Tern(C, Tern(D, N, IntL(2)), IntL(3)), Tern(C, IntL(2), Tern(D, N, IntL(3))), Tern(Tern(C, D, C), N, IntL(4))}
 None == NoneS(0)
 Brk == BrkS(0)
 S0 == {SExpr(e) : e \in E1} \cup {Let("x", e) : e \in Leaf \cup {Tern(C, N, IntL(2))}} \cup {Ret(e) : e \in Leaf} \cup {Block(<<>>)}
 Arm == S0 \cup {Block(<<s>>) : s \in {SExpr(N), Let("w", N), Ret(IntL(5))}} \cup {Block(<<Let("w", Tern(D, IntL(1), IntL(2)))>>)}
 IfS == {If(c, a, b) : c \in {C, Or(C, D)}, a \in Arm, b \in Arm \cup {None}}
+        \cup {If(c, a, b) : c \in NestCond, a \in {SExpr(N), Ret(IntL(5))}, b \in {None, SExpr(IntL(6))}}
 Body == {<<>>, <<SExpr(IntL(10))>>, <<Let("z", IntL(1))>>, <<Brk>>, <<Ret(IntL(30))>>, <<SExpr(IntL(20)), Brk>>,
          <<If(C, Brk, None)>>, <<If(C, Brk, None), SExpr(IntL(25))>>, <<If(C, Ret(IntL(26)), None)>>, <<Let("z", IntL(1)), SExpr(Lv("z"))>>}
 DefBody == {<<>>, <<SExpr(IntL(50))>>, <<Brk>>, <<Let("y", IntL(1))>>}
